@@ -184,6 +184,31 @@ def block_boundary_stratum(ctx, ws, n):
         _judge_listing(ctx, ws, text, f"block-boundary/{B}/col{col}")
 
 
+def multibyte_boundary_stratum(ctx, ws, n):
+    """Listings with non-ASCII text (a symbol or path in UTF-8) laid out so that a byte offset that block-wise reading would use falls in
+    the MIDDLE of a multi-byte character: the text is read as it is."""
+    for i in range(n):
+        B = BLOCKS[(ctx.shard + i * ctx.nshards) % len(BLOCKS)]
+        tail = "        # " + "é" * 24 + " <función_ñandú+0x10>"
+        line = lambda a: f"  {a:x}:\t50                   \tpush   %rax{tail}\n"      # noqa: E731
+        lb = len(line(0x401000).encode())
+        run_at = len(f"  {0x401000:x}:\t50                   \tpush   %rax        # ".encode())
+        head0 = "\nbig.bin:     file format elf64-x86-64\n\n\nDisassembly of section .text:\n\n0000000000401000 <"
+        k = 1
+        while (B - (len(head0) + k + 3)) % lb != run_at + 1 + 2 * (i % 8) or (len(head0) + k + 3) > B:
+            k += 1
+            if k > 3 * lb:
+                break
+        head = head0 + "f" * k + ">:\n"
+        nlines = (B - len(head)) // lb + 60
+        text = head + "".join(line(0x401000 + j) for j in range(nlines))
+        cut = text.encode()[B - 1:B + 1]
+        ctx.event("multibyte_boundary_listings")
+        if cut not in ("é".encode(), ):
+            ctx.event("multibyte_boundary_not_aligned")
+        _judge_listing(ctx, ws, text, f"replay-multibyte-boundary/{B}")
+
+
 def count_boundary_stratum(ctx, ws, n):
     """Listings with more instructions than a power of two that buffered / chunked processing would use (2^16, 2^17 instructions)."""
     rng = ctx.rng
@@ -242,6 +267,7 @@ def run_shard(ctx):
     ws = real.Workspace()
     block_boundary_stratum(ctx, ws, ctx.share(24, 240))
     count_boundary_stratum(ctx, ws, ctx.share(3, 48))
+    multibyte_boundary_stratum(ctx, ws, ctx.share(12, 120))
     if ctx.shard == 1 % ctx.nshards:
         pipe_stratum(ctx, ws, 2 if ctx.tier == "quick" else 12)
     if ctx.shard == 0:
